@@ -1,5 +1,677 @@
+/-
+  C11 — `$output` selects exactly the marked subtrees and hides exactly the excluded ones.
+  Model: `findOutputs`, `filterOutput`, `emit` (Bkl/Output.lean).
+  Specification functions are defined here, independently of the model.  Theorems about `Val`
+  come with `_list` / `_fields` companions (mutual structural proofs over the nested inductive).
+-/
 import Bkl
+import BklProofs.Lemmas.Output
+import BklProofs.Lemmas.OutputSel
 namespace Bkl
-/-- placeholder until the property theorems land -/
-theorem C11_placeholder : validate (.int 1) = .ok () := by simp [validate]; rfl
+
+/-! ## Specification functions -/
+
+mutual
+/-- some map in `v` carries `$output: true`, or some list has a `{$output: true}` entry -/
+def hasOutTrue : Val → Bool
+  | .map kvs => fhasBool kvs "$output" true || hasOutTrueFields kvs
+  | .list xs => hasListMapBool xs "$output" true || hasOutTrueList xs
+  | _ => false
+def hasOutTrueList : List Val → Bool
+  | [] => false
+  | x :: xs => hasOutTrue x || hasOutTrueList xs
+def hasOutTrueFields : Fields → Bool
+  | [] => false
+  | (_, v) :: rest => hasOutTrue v || hasOutTrueFields rest
+end
+
+mutual
+/-- the same for `$output: false` -/
+def hasOutFalse : Val → Bool
+  | .map kvs => fhasBool kvs "$output" false || hasOutFalseFields kvs
+  | .list xs => hasListMapBool xs "$output" false || hasOutFalseList xs
+  | _ => false
+def hasOutFalseList : List Val → Bool
+  | [] => false
+  | x :: xs => hasOutFalse x || hasOutFalseList xs
+def hasOutFalseFields : Fields → Bool
+  | [] => false
+  | (_, v) :: rest => hasOutFalse v || hasOutFalseFields rest
+end
+
+/-- a list entry that is a `$output: true` marker (consumed by the enclosing list) -/
+def isTrueMarker : Val → Bool
+  | .map m => fhasBool m "$output" true
+  | _ => false
+
+mutual
+/-- number of containers carrying the marker: maps with `$output: true`, lists with at least one
+    `{$output: true}` entry (the marker entries themselves are consumed, not counted) -/
+def countSel : Val → Nat
+  | .map kvs => (if fhasBool kvs "$output" true then 1 else 0) + countSelFields kvs
+  | .list xs => (if hasListMapBool xs "$output" true then 1 else 0) + countSelList xs
+  | _ => 0
+def countSelList : List Val → Nat
+  | [] => 0
+  | x :: xs => (if isTrueMarker x then 0 else countSel x) + countSelList xs
+def countSelFields : Fields → Nat
+  | [] => 0
+  | (_, v) :: rest => countSel v + countSelFields rest
+end
+
+/-- a value that `filterOutput` drops -/
+def hidden : Val → Bool
+  | .map kvs => fhasBool kvs "$output" false
+  | .list xs => hasListMapBool xs "$output" false
+  | .null => true
+  | _ => false
+
+mutual
+/-- no `null` anywhere (root, map values, list entries) -/
+def noNull : Val → Bool
+  | .null => false
+  | .map kvs => noNullFields kvs
+  | .list xs => noNullList xs
+  | _ => true
+def noNullList : List Val → Bool
+  | [] => true
+  | x :: xs => noNull x && noNullList xs
+def noNullFields : Fields → Bool
+  | [] => true
+  | (_, v) :: rest => noNull v && noNullFields rest
+end
+
+mutual
+/-- some map in `v` has the key `k` -/
+def hasKey (k : String) : Val → Bool
+  | .map kvs => hasKeyFields k kvs
+  | .list xs => hasKeyList k xs
+  | _ => false
+def hasKeyList (k : String) : List Val → Bool
+  | [] => false
+  | x :: xs => hasKey k x || hasKeyList k xs
+def hasKeyFields (k : String) : Fields → Bool
+  | [] => false
+  | (k', v) :: rest => k' == k || hasKey k v || hasKeyFields k rest
+end
+
+theorem C11_aux_isTrueMarker_eq (x : Val) : isTrueMarker x = o_isMarker "$output" true x := by
+  cases x <;> rfl
+
+/-! ## No marker: nothing is selected, the tree is unchanged -/
+
+mutual
+theorem C11_no_marker_root_fallback : ∀ (v : Val), hasOutTrue v = false →
+    findOutputs v = .ok (v, [])
+  | .map kvs, h => by
+    simp only [hasOutTrue, Bool.or_eq_false_iff] at h
+    simp only [findOutputs, h.1, C11_no_marker_root_fallback_fields kvs h.2]
+    rfl
+  | .list xs, h => by
+    simp only [hasOutTrue, Bool.or_eq_false_iff] at h
+    simp only [findOutputs, h.1, C11_no_marker_root_fallback_list xs h.2]
+    rfl
+  | .null, _ | .bool _, _ | .int _, _ | .flt _, _ | .str _, _ => rfl
+theorem C11_no_marker_root_fallback_list : ∀ (xs : List Val), hasOutTrueList xs = false →
+    findOutputsList xs false = .ok (xs, [])
+  | [], _ => rfl
+  | x :: xs, h => by
+    simp only [hasOutTrueList, Bool.or_eq_false_iff] at h
+    rw [findOutputsList_cons_eq]
+    simp only [Bool.false_and, Bool.false_eq_true, if_false, C11_no_marker_root_fallback x h.1,
+      C11_no_marker_root_fallback_list xs h.2]
+    rfl
+theorem C11_no_marker_root_fallback_fields : ∀ (kvs : Fields), hasOutTrueFields kvs = false →
+    findOutputsFields kvs false = .ok (kvs, [])
+  | [], _ => rfl
+  | (k, v) :: rest, h => by
+    simp only [hasOutTrueFields, Bool.or_eq_false_iff] at h
+    simp only [findOutputsFields, Bool.false_and, Bool.false_eq_true, if_false,
+      C11_no_marker_root_fallback v h.1, C11_no_marker_root_fallback_fields rest h.2]
+    rfl
+end
+
+example : hasOutTrue (.map [("a", .list [.int 1, .map [("$output", .bool false)]])]) = false := by
+  decide
+
+/-- consequently the first loop of `emit` (see `emit_eq`) passes the document root on -/
+theorem C11_no_marker_emit_root (d : Val) (h : hasOutTrue d = false) :
+    emitSelect [d] = .ok [d] := by
+  simp only [emitSelect, C11_no_marker_root_fallback d h]
+  rfl
+
+/-! ## The number of selected subtrees -/
+
+/-- Without well-formedness (sorted, hence duplicate-free keys) the count is wrong: a second
+    `$output` entry is skipped together with the marker, so markers below it are never seen. -/
+example : ∃ v v' outs, findOutputs v = .ok (v', outs) ∧ outs.length ≠ countSel v :=
+  ⟨.map [("$output", .bool true), ("$output", .map [("$output", .bool true)])], .map [], [.map []],
+    by decide, by decide⟩
+
+mutual
+/-- `_partial`: needs `Val.WF` (see the counterexample above) -/
+theorem C11_selected_count_partial : ∀ (v v' : Val) (outs : List Val), v.wfB = true →
+    findOutputs v = .ok (v', outs) → outs.length = countSel v
+  | .map kvs, v', outs, hw, h => by
+    obtain ⟨ret, o, hf, rfl, rfl⟩ := findOutputs_map_ok h
+    simp only [Val.wfB, Bool.and_eq_true] at hw
+    have ih := C11_selected_count_fields kvs (fhasBool kvs "$output" true) ret o hw.2
+      (fun hs => o_fhasBool_sorted_mem kvs _ _ hw.1 hs) hf
+    simp only [countSel]
+    split
+    · simp only [List.length_cons, ih]; omega
+    · simp only [ih]; omega
+  | .list xs, v', outs, hw, h => by
+    obtain ⟨ret, o, hf, rfl, rfl⟩ := findOutputs_list_ok h
+    simp only [Val.wfB] at hw
+    have ih := C11_selected_count_list xs (hasListMapBool xs "$output" true) ret o hw id hf
+    simp only [countSel]
+    split
+    · simp only [List.length_append, List.length_cons, List.length_nil, ih]; omega
+    · simp only [ih]; omega
+  | .null, v', outs, _, h | .bool _, v', outs, _, h | .int _, v', outs, _, h
+  | .flt _, v', outs, _, h | .str _, v', outs, _, h => by
+    obtain ⟨_, rfl⟩ := findOutputs_scalar_ok rfl rfl h; rfl
+theorem C11_selected_count_list : ∀ (xs : List Val) (skip : Bool) (r outs : List Val),
+    Val.wfListB xs = true → (hasListMapBool xs "$output" true = true → skip = true) →
+    findOutputsList xs skip = .ok (r, outs) → outs.length = countSelList xs
+  | [], skip, r, outs, _, _, h => by obtain ⟨_, rfl⟩ := findOutputsList_nil_ok h; rfl
+  | x :: xs, skip, r, outs, hw, hinv, h => by
+    simp only [Val.wfListB, Bool.and_eq_true] at hw
+    rw [o_hasListMapBool_cons] at hinv
+    have hinv' : hasListMapBool xs "$output" true = true → skip = true :=
+      fun hx => hinv (by simp [hx])
+    rcases findOutputsList_cons_ok h with
+      ⟨_, ⟨m, rfl, hb, _⟩, h'⟩ | ⟨hc, x', o1, xs', o2, h1, h2, _, rfl⟩
+    · have ih := C11_selected_count_list xs skip r outs hw.2 hinv' h'
+      simp only [countSelList, isTrueMarker, hb, if_true]; omega
+    · have hm : isTrueMarker x = false := by
+        cases hx : isTrueMarker x with
+        | false => rfl
+        | true =>
+          rw [C11_aux_isTrueMarker_eq] at hx
+          exact absurd ⟨hinv (by simp [hx]), hx⟩ hc
+      have ih1 := C11_selected_count_partial x x' o1 hw.1 h1
+      have ih2 := C11_selected_count_list xs skip xs' o2 hw.2 hinv' h2
+      simp only [countSelList, hm, List.length_append]; simp only [Bool.false_eq_true, if_false]; omega
+theorem C11_selected_count_fields : ∀ (kvs : Fields) (skip : Bool) (r : Fields) (outs : List Val),
+    Val.wfFieldsB kvs = true →
+    (skip = true → ∀ kv ∈ kvs, kv.1 = "$output" → kv.2 = .bool true) →
+    findOutputsFields kvs skip = .ok (r, outs) → outs.length = countSelFields kvs
+  | [], skip, r, outs, _, _, h => by obtain ⟨_, rfl⟩ := findOutputsFields_nil_ok h; rfl
+  | (k, v) :: rest, skip, r, outs, hw, hinv, h => by
+    simp only [Val.wfFieldsB, Bool.and_eq_true] at hw
+    have hinv' : skip = true → ∀ kv ∈ rest, kv.1 = "$output" → kv.2 = .bool true :=
+      fun hs kv hm => hinv hs kv (List.mem_cons_of_mem _ hm)
+    rcases findOutputsFields_cons_ok h with ⟨hs, hk, h'⟩ | ⟨_, v', o1, rest', o2, h1, h2, _, rfl⟩
+    · have hv : v = .bool true := hinv hs (k, v) List.mem_cons_self hk
+      have ih := C11_selected_count_fields rest skip r outs hw.2 hinv' h'
+      simp only [countSelFields, hv, countSel]; omega
+    · have ih1 := C11_selected_count_partial v v' o1 hw.1 h1
+      have ih2 := C11_selected_count_fields rest skip rest' o2 hw.2 hinv' h2
+      simp only [countSelFields, List.length_append]; omega
+end
+
+example :
+    let v := Val.map [("$output", .bool true), ("a", .list [.map [("$output", .bool true)], .int 1]),
+                      ("b", .map [("$output", .bool true), ("c", .int 2)])]
+    v.wfB = true ∧ findOutputs v =
+      .ok (.map [("a", .list [.int 1]), ("b", .map [("c", .int 2)])],
+           [.map [("a", .list [.int 1]), ("b", .map [("c", .int 2)])], .list [.int 1],
+            .map [("c", .int 2)]]) ∧ countSel v = 3 := by
+  decide
+
+/-! ## No `$output: true` marker survives selection -/
+
+/-- auxiliary: a list whose entries contain no marker has no marker entry -/
+theorem C11_aux_hasOutTrueList (xs : List Val) (h : hasOutTrueList xs = false) :
+    hasListMapBool xs "$output" true = false := by
+  induction xs with
+  | nil => rfl
+  | cons x xs ih =>
+    simp only [hasOutTrueList, Bool.or_eq_false_iff] at h
+    rw [o_hasListMapBool_cons, ih h.2, Bool.or_false]
+    cases x with
+    | map m =>
+      have := h.1; simp only [hasOutTrue, Bool.or_eq_false_iff] at this
+      exact this.1
+    | _ => rfl
+
+mutual
+theorem C11_markers_stripped : ∀ (v v' : Val) (outs : List Val),
+    findOutputs v = .ok (v', outs) →
+    hasOutTrue v' = false ∧ ∀ o ∈ outs, hasOutTrue o = false
+  | .map kvs, v', outs, h => by
+    obtain ⟨ret, o, hf, rfl, rfl⟩ := findOutputs_map_ok h
+    obtain ⟨ih1, ih2⟩ := C11_markers_stripped_fields kvs _ ret o hf
+    have hself : hasOutTrue (.map ret) = false := by
+      simp only [hasOutTrue, ih1, Bool.or_false]
+      cases hs : fhasBool kvs "$output" true with
+      | true =>
+        rw [hs] at hf; unfold fhasBool
+        rw [o_fget_none_of_no_key ret _ (o_findOutputsFields_skip_no_key kvs ret o hf)]
+      | false =>
+        rw [hs] at hf; rw [o_findOutputsFields_noskip_fhasBool true kvs ret o hf, hs]
+    refine ⟨hself, ?_⟩
+    intro x hx
+    split at hx
+    · rcases List.mem_cons.1 hx with rfl | hx'
+      · exact hself
+      · exact ih2 x hx'
+    · exact ih2 x hx
+  | .list xs, v', outs, h => by
+    obtain ⟨ret, o, hf, rfl, rfl⟩ := findOutputs_list_ok h
+    obtain ⟨ih1, ih2⟩ := C11_markers_stripped_list xs _ ret o hf
+    have hself : hasOutTrue (.list ret) = false := by
+      simp only [hasOutTrue, ih1, C11_aux_hasOutTrueList ret ih1, Bool.or_false]
+    refine ⟨hself, ?_⟩
+    intro x hx
+    split at hx
+    · rcases List.mem_append.1 hx with hx' | hx'
+      · exact ih2 x hx'
+      · rw [List.mem_singleton.1 hx']; exact hself
+    · exact ih2 x hx
+  | .null, v', outs, h | .bool _, v', outs, h | .int _, v', outs, h
+  | .flt _, v', outs, h | .str _, v', outs, h => by
+    obtain ⟨rfl, rfl⟩ := findOutputs_scalar_ok rfl rfl h
+    exact ⟨rfl, fun _ hm => nomatch hm⟩
+theorem C11_markers_stripped_list : ∀ (xs : List Val) (skip : Bool) (r outs : List Val),
+    findOutputsList xs skip = .ok (r, outs) →
+    hasOutTrueList r = false ∧ ∀ o ∈ outs, hasOutTrue o = false
+  | [], skip, r, outs, h => by
+    obtain ⟨rfl, rfl⟩ := findOutputsList_nil_ok h
+    exact ⟨rfl, fun _ hm => nomatch hm⟩
+  | x :: xs, skip, r, outs, h => by
+    rcases findOutputsList_cons_ok h with ⟨_, _, h'⟩ | ⟨_, x', o1, xs', o2, h1, h2, rfl, rfl⟩
+    · exact C11_markers_stripped_list xs skip r outs h'
+    · obtain ⟨a1, a2⟩ := C11_markers_stripped x x' o1 h1
+      obtain ⟨b1, b2⟩ := C11_markers_stripped_list xs skip xs' o2 h2
+      refine ⟨by simp only [hasOutTrueList, a1, b1, Bool.or_false], ?_⟩
+      intro y hy
+      rcases List.mem_append.1 hy with hy' | hy'
+      · exact a2 y hy'
+      · exact b2 y hy'
+theorem C11_markers_stripped_fields : ∀ (kvs : Fields) (skip : Bool) (r : Fields)
+    (outs : List Val), findOutputsFields kvs skip = .ok (r, outs) →
+    hasOutTrueFields r = false ∧ ∀ o ∈ outs, hasOutTrue o = false
+  | [], skip, r, outs, h => by
+    obtain ⟨rfl, rfl⟩ := findOutputsFields_nil_ok h
+    exact ⟨rfl, fun _ hm => nomatch hm⟩
+  | (k, v) :: rest, skip, r, outs, h => by
+    rcases findOutputsFields_cons_ok h with ⟨_, _, h'⟩ | ⟨_, v', o1, rest', o2, h1, h2, rfl, rfl⟩
+    · exact C11_markers_stripped_fields rest skip r outs h'
+    · obtain ⟨a1, a2⟩ := C11_markers_stripped v v' o1 h1
+      obtain ⟨b1, b2⟩ := C11_markers_stripped_fields rest skip rest' o2 h2
+      refine ⟨by simp only [hasOutTrueFields, a1, b1, Bool.or_false], ?_⟩
+      intro y hy
+      rcases List.mem_append.1 hy with hy' | hy'
+      · exact a2 y hy'
+      · exact b2 y hy'
+end
+
+example : findOutputs (.map [("a", .list [.map [("$output", .bool true)], .int 1]),
+                           ("b", .map [("$output", .bool true), ("c", .int 2)])]) =
+    .ok (.map [("a", .list [.int 1]), ("b", .map [("c", .int 2)])],
+         [.list [.int 1], .map [("c", .int 2)]]) := by decide
+
+/-! ## Order of the selected subtrees -/
+
+/-- a marked map is itself the first selected document -/
+theorem C11_map_self_first (kvs : Fields) (v' : Val) (outs : List Val)
+    (hm : fhasBool kvs "$output" true = true) (h : findOutputs (.map kvs) = .ok (v', outs)) :
+    outs.head? = some v' := by
+  obtain ⟨ret, o, _, rfl, rfl⟩ := findOutputs_map_ok h
+  simp [hm]
+
+/-- a marked list is itself the last selected document -/
+theorem C11_list_self_last (xs : List Val) (v' : Val) (outs : List Val)
+    (hm : hasListMapBool xs "$output" true = true) (h : findOutputs (.list xs) = .ok (v', outs)) :
+    outs.getLast? = some v' := by
+  obtain ⟨ret, o, _, rfl, rfl⟩ := findOutputs_list_ok h
+  simp [hm]
+
+example : findOutputs (.map [("$output", .bool true), ("a", .map [("$output", .bool true)])]) =
+    .ok (.map [("a", .map [])], [.map [("a", .map [])], .map []]) := by decide
+example : findOutputs (.list [.map [("$output", .bool true)], .list [.map [("$output", .bool true)]]])
+    = .ok (.list [.list []], [.list [], .list [.list []]]) := by decide
+
+/-! ## Hiding: `filterOutput` drops exactly the hidden values -/
+
+/-- when `filterOutput` succeeds, it returns nothing iff the value is hidden -/
+theorem C11_hide_spec (v : Val) (r : Option Val) (h : filterOutput v = .ok r) :
+    r = none ↔ hidden v = true := by
+  cases v with
+  | map kvs =>
+    rcases filterOutput_map_ok h with ⟨hb, rfl⟩ | ⟨hb, fs, _, rfl⟩ <;> simp [hidden, hb]
+  | list xs =>
+    rcases filterOutput_list_ok h with ⟨hb, rfl⟩ | ⟨hb, rs, _, rfl⟩ <;> simp [hidden, hb]
+  | null => rw [filterOutput_scalar_ok rfl rfl h]; simp [hidden, Val.isNull]
+  | bool _ | int _ | flt _ | str _ =>
+    rw [filterOutput_scalar_ok rfl rfl h]; simp [hidden, Val.isNull]
+
+example : filterOutput (.list [.int 1, .map [("$output", .bool false)]]) = .ok none := by decide
+example : filterOutput (.map [("$output", .bool true)]) = .ok (some (.map [("$output", .bool true)])) := by
+  decide
+
+/-- a hidden value is dropped or (list marker entry with extra keys) rejected, never kept -/
+theorem C11_hidden_not_kept (v r : Val) (hh : hidden v = true) : filterOutput v ≠ .ok (some r) := by
+  intro h
+  have := (C11_hide_spec v _ h).2 hh
+  cases this
+
+/-- the entries of a visible map: exactly the entries whose value is kept, in order, each with
+    its filtered value; and every child was filtered successfully -/
+theorem C11_hide_spec_map (kvs r : Fields) (h : filterOutput (.map kvs) = .ok (some (.map r))) :
+    hidden (.map kvs) = false ∧
+    (∀ kv ∈ kvs, ∃ o, filterOutput kv.2 = .ok o) ∧
+    r = kvs.filterMap fun kv =>
+      match filterOutput kv.2 with
+      | .ok (some v'') => some (kv.1, v'')
+      | _ => none := by
+  rcases filterOutput_map_ok h with ⟨_, h'⟩ | ⟨hb, fs, hf, h'⟩
+  · cases h'
+  · cases h'
+    exact ⟨hb, o_filterOutputFields_spec kvs r hf⟩
+
+/-- the same for lists -/
+theorem C11_hide_spec_list (xs r : List Val) (h : filterOutput (.list xs) = .ok (some (.list r))) :
+    hidden (.list xs) = false ∧
+    (∀ x ∈ xs, ∃ o, filterOutput x = .ok o) ∧
+    r = xs.filterMap fun x =>
+      match filterOutput x with
+      | .ok (some x'') => some x''
+      | _ => none := by
+  rcases filterOutput_list_ok h with ⟨_, h'⟩ | ⟨hb, rs, hf, h'⟩
+  · cases h'
+  · cases h'
+    exact ⟨hb, o_filterOutputList_spec xs r hf⟩
+
+example : filterOutput (.map [("a", .null), ("b", .map [("$output", .bool false)]), ("c", .int 1)])
+    = .ok (some (.map [("c", .int 1)])) := by decide
+example : filterOutput (.list [.null, .list [.map [("$output", .bool false)]], .int 1])
+    = .ok (some (.list [.int 1])) := by decide
+
+/-! ## Nothing hidden survives -/
+
+/-- Without well-formedness a shadowed second `$output` key can surface after the first one
+    has been dropped. -/
+example : ∃ v r, filterOutput v = .ok (some r) ∧ hasOutFalse r = true :=
+  ⟨.map [("$output", .null), ("$output", .bool false)], .map [("$output", .bool false)],
+    by decide, by decide⟩
+
+/-- auxiliary: a list whose entries contain no `$output: false` has no such marker entry -/
+theorem C11_aux_hasOutFalseList (xs : List Val) (h : hasOutFalseList xs = false) :
+    hasListMapBool xs "$output" false = false := by
+  induction xs with
+  | nil => rfl
+  | cons x xs ih =>
+    simp only [hasOutFalseList, Bool.or_eq_false_iff] at h
+    rw [o_hasListMapBool_cons, ih h.2, Bool.or_false]
+    cases x with
+    | map m =>
+      have := h.1; simp only [hasOutFalse, Bool.or_eq_false_iff] at this
+      exact this.1
+    | _ => rfl
+
+mutual
+/-- `_partial`: needs `Val.WF` (see the counterexample above) -/
+theorem C11_hidden_absent_partial : ∀ (v r : Val), v.wfB = true →
+    filterOutput v = .ok (some r) → hasOutFalse r = false ∧ noNull r = true
+  | .map kvs, r, hw, h => by
+    simp only [Val.wfB, Bool.and_eq_true] at hw
+    rcases filterOutput_map_ok h with ⟨_, h'⟩ | ⟨hb, fs, hf, h'⟩
+    · cases h'
+    · cases h'
+      obtain ⟨ih1, ih2⟩ := C11_hidden_absent_fields kvs fs hw.2 hf
+      exact ⟨by simp only [hasOutFalse, ih1, o_filterOutputFields_fhasBool kvs fs false hw.1 hf hb,
+        Bool.or_false], by simpa only [noNull] using ih2⟩
+  | .list xs, r, hw, h => by
+    simp only [Val.wfB] at hw
+    rcases filterOutput_list_ok h with ⟨_, h'⟩ | ⟨hb, rs, hf, h'⟩
+    · cases h'
+    · cases h'
+      obtain ⟨ih1, ih2⟩ := C11_hidden_absent_list xs rs hw hf
+      exact ⟨by simp only [hasOutFalse, ih1, C11_aux_hasOutFalseList rs ih1, Bool.or_false],
+        by simpa only [noNull] using ih2⟩
+  | .null, r, _, h => by cases filterOutput_scalar_ok rfl rfl h
+  | .bool _, r, _, h | .int _, r, _, h | .flt _, r, _, h | .str _, r, _, h => by
+    have := filterOutput_scalar_ok rfl rfl h
+    simp only [Val.isNull, Bool.false_eq_true, if_false, Option.some.injEq] at this
+    subst this; exact ⟨rfl, rfl⟩
+theorem C11_hidden_absent_list : ∀ (xs rs : List Val), Val.wfListB xs = true →
+    filterOutputList xs = .ok rs → hasOutFalseList rs = false ∧ noNullList rs = true
+  | [], rs, _, h => by rw [filterOutputList_nil_ok h]; exact ⟨rfl, rfl⟩
+  | x :: xs, rs, hw, h => by
+    simp only [Val.wfListB, Bool.and_eq_true] at hw
+    obtain ⟨o, rs', h1, h2, rfl⟩ := filterOutputList_cons_ok h
+    obtain ⟨b1, b2⟩ := C11_hidden_absent_list xs rs' hw.2 h2
+    cases o with
+    | none => exact ⟨b1, b2⟩
+    | some x' =>
+      obtain ⟨a1, a2⟩ := C11_hidden_absent_partial x x' hw.1 h1
+      exact ⟨by simp only [hasOutFalseList, a1, b1, Bool.or_false],
+        by simp only [noNullList, a2, b2, Bool.and_true]⟩
+theorem C11_hidden_absent_fields : ∀ (kvs fs : Fields), Val.wfFieldsB kvs = true →
+    filterOutputFields kvs = .ok fs → hasOutFalseFields fs = false ∧ noNullFields fs = true
+  | [], fs, _, h => by rw [filterOutputFields_nil_ok h]; exact ⟨rfl, rfl⟩
+  | (k, v) :: rest, fs, hw, h => by
+    simp only [Val.wfFieldsB, Bool.and_eq_true] at hw
+    obtain ⟨o, fs', h1, h2, rfl⟩ := filterOutputFields_cons_ok h
+    obtain ⟨b1, b2⟩ := C11_hidden_absent_fields rest fs' hw.2 h2
+    cases o with
+    | none => exact ⟨b1, b2⟩
+    | some v' =>
+      obtain ⟨a1, a2⟩ := C11_hidden_absent_partial v v' hw.1 h1
+      exact ⟨by simp only [hasOutFalseFields, a1, b1, Bool.or_false],
+        by simp only [noNullFields, a2, b2, Bool.and_true]⟩
+end
+
+example :
+    let v := Val.map [("a", .null), ("b", .map [("$output", .bool false), ("x", .int 1)]),
+                      ("c", .list [.int 1, .null, .list [.map [("$output", .bool false)]]])]
+    v.wfB = true ∧ filterOutput v = .ok (some (.map [("c", .list [.int 1])])) := by decide
+
+mutual
+/-- `noNull` holds without well-formedness -/
+theorem C11_no_null : ∀ (v r : Val), filterOutput v = .ok (some r) → noNull r = true
+  | .map kvs, r, h => by
+    rcases filterOutput_map_ok h with ⟨_, h'⟩ | ⟨_, fs, hf, h'⟩
+    · cases h'
+    · cases h'; simpa only [noNull] using C11_no_null_fields kvs fs hf
+  | .list xs, r, h => by
+    rcases filterOutput_list_ok h with ⟨_, h'⟩ | ⟨_, rs, hf, h'⟩
+    · cases h'
+    · cases h'; simpa only [noNull] using C11_no_null_list xs rs hf
+  | .null, r, h => by cases filterOutput_scalar_ok rfl rfl h
+  | .bool _, r, h | .int _, r, h | .flt _, r, h | .str _, r, h => by
+    have := filterOutput_scalar_ok rfl rfl h
+    simp only [Val.isNull, Bool.false_eq_true, if_false, Option.some.injEq] at this
+    subst this; rfl
+theorem C11_no_null_list : ∀ (xs rs : List Val), filterOutputList xs = .ok rs →
+    noNullList rs = true
+  | [], rs, h => by rw [filterOutputList_nil_ok h]; rfl
+  | x :: xs, rs, h => by
+    obtain ⟨o, rs', h1, h2, rfl⟩ := filterOutputList_cons_ok h
+    have b := C11_no_null_list xs rs' h2
+    cases o with
+    | none => exact b
+    | some x' => simp only [noNullList, C11_no_null x x' h1, b, Bool.and_true]
+theorem C11_no_null_fields : ∀ (kvs fs : Fields), filterOutputFields kvs = .ok fs →
+    noNullFields fs = true
+  | [], fs, h => by rw [filterOutputFields_nil_ok h]; rfl
+  | (k, v) :: rest, fs, h => by
+    obtain ⟨o, fs', h1, h2, rfl⟩ := filterOutputFields_cons_ok h
+    have b := C11_no_null_fields rest fs' h2
+    cases o with
+    | none => exact b
+    | some v' => simp only [noNullFields, C11_no_null v v' h1, b, Bool.and_true]
+end
+
+/-! ## A marker entry with extra keys is an error -/
+
+theorem C11_marker_extra_keys_error (m : Fields) (hb : fhasBool m "$output" true = true)
+    (hl : (fdel m "$output").length > 0) :
+    findOutputs (.list [.map m]) = .error .extraKeys := by
+  have hs : hasListMapBool [.map m] "$output" true = true := by
+    simp [hasListMapBool, hb]
+  simp only [findOutputs, hs, findOutputsList, hb, Bool.and_self, if_true, hl]
+  rfl
+
+/-- anywhere in a list, such an entry makes `findOutputs` fail (possibly with an earlier error) -/
+theorem C11_marker_extra_keys_error_mem (xs : List Val) (m : Fields) (hm : .map m ∈ xs)
+    (hb : fhasBool m "$output" true = true) (hl : (fdel m "$output").length > 0) :
+    ∃ e, findOutputs (.list xs) = .error e := by
+  cases h : findOutputs (.list xs) with
+  | error e => exact ⟨e, rfl⟩
+  | ok p =>
+    obtain ⟨v', outs⟩ := p
+    obtain ⟨ret, o, hf, _, _⟩ := findOutputs_list_ok h
+    have hs : hasListMapBool xs "$output" true = true := by
+      simp only [hasListMapBool, List.any_eq_true]
+      exact ⟨.map m, hm, hb⟩
+    rw [hs] at hf
+    have := o_findOutputsList_marker_clean xs ret o hf m hm hb
+    omega
+
+example : fhasBool [("$output", .bool true), ("x", .int 1)] "$output" true = true ∧
+    (fdel [("$output", .bool true), ("x", .int 1)] "$output").length > 0 := by decide
+
+/-! ## No `$output` key reaches the finalisation step of `emit` -/
+
+mutual
+/-- a validated tree has no map key that `validateString` rejects -/
+theorem C11_validate_no_bad_key (k : String) (hk : validateString k ≠ .ok ()) :
+    ∀ (v : Val), validate v = .ok () → hasKey k v = false
+  | .map kvs, h => by
+    simp only [validate] at h; simp only [hasKey]
+    exact C11_validate_no_bad_key_fields k hk kvs h
+  | .list xs, h => by
+    simp only [validate] at h; simp only [hasKey]
+    exact C11_validate_no_bad_key_list k hk xs h
+  | .null, _ | .bool _, _ | .int _, _ | .flt _, _ | .str _, _ => rfl
+theorem C11_validate_no_bad_key_list (k : String) (hk : validateString k ≠ .ok ()) :
+    ∀ (xs : List Val), validateList xs = .ok () → hasKeyList k xs = false
+  | [], _ => rfl
+  | x :: xs, h => by
+    simp only [validateList, o_seq_ok] at h
+    simp only [hasKeyList, C11_validate_no_bad_key k hk x h.1,
+      C11_validate_no_bad_key_list k hk xs h.2, Bool.or_false]
+theorem C11_validate_no_bad_key_fields (k : String) (hk : validateString k ≠ .ok ()) :
+    ∀ (kvs : Fields), validateFields kvs = .ok () → hasKeyFields k kvs = false
+  | [], _ => rfl
+  | (k', v) :: rest, h => by
+    simp only [validateFields, o_seq_ok] at h
+    have hne : (k' == k) = false := by
+      rw [beq_eq_false_iff_ne]; intro e; subst e; exact hk h.1
+    simp only [hasKeyFields, hne, C11_validate_no_bad_key k hk v h.2.1,
+      C11_validate_no_bad_key_fields k hk rest h.2.2, Bool.or_false]
+end
+
+example : validateString "$output" ≠ .ok () ∧
+    validate (.map [("a", .list [.map [("$$output", .bool true)]])]) = .ok () := by decide
+
+/-- auxiliary: a present key is found by `hasKeyFields` -/
+theorem C11_aux_hasKeyFields_of_fget (kvs : Fields) (k : String) (x : Val)
+    (h : fget kvs k = some x) : hasKeyFields k kvs = true := by
+  induction kvs with
+  | nil => cases h
+  | cons kv rest ih =>
+    obtain ⟨k', v⟩ := kv
+    simp only [fget] at h
+    simp only [hasKeyFields, Bool.or_eq_true, beq_iff_eq]
+    split at h
+    · rename_i hk; exact Or.inl (Or.inl hk)
+    · exact Or.inr (ih h)
+
+/-- auxiliary: no key `k` ⇒ no `k: b` marker -/
+theorem C11_aux_fhasBool_of_no_key (kvs : Fields) (k : String) (b : Bool)
+    (h : hasKeyFields k kvs = false) : fhasBool kvs k b = false := by
+  unfold fhasBool
+  cases hg : fget kvs k with
+  | none => rfl
+  | some x => rw [C11_aux_hasKeyFields_of_fget kvs k x hg] at h; cases h
+
+mutual
+/-- a tree without any `$output` key has no `$output` marker of either polarity -/
+theorem C11_no_key_no_marker : ∀ (v : Val), hasKey "$output" v = false →
+    hasOutTrue v = false ∧ hasOutFalse v = false
+  | .map kvs, h => by
+    simp only [hasKey] at h
+    obtain ⟨a, b⟩ := C11_no_key_no_marker_fields kvs h
+    simp only [hasOutTrue, hasOutFalse, a, b, C11_aux_fhasBool_of_no_key kvs _ _ h, Bool.or_false,
+      and_self]
+  | .list xs, h => by
+    simp only [hasKey] at h
+    obtain ⟨a, b⟩ := C11_no_key_no_marker_list xs h
+    simp only [hasOutTrue, hasOutFalse, a, b, C11_aux_hasOutTrueList xs a,
+      C11_aux_hasOutFalseList xs b, Bool.or_false, and_self]
+  | .null, _ | .bool _, _ | .int _, _ | .flt _, _ | .str _, _ => ⟨rfl, rfl⟩
+theorem C11_no_key_no_marker_list : ∀ (xs : List Val), hasKeyList "$output" xs = false →
+    hasOutTrueList xs = false ∧ hasOutFalseList xs = false
+  | [], _ => ⟨rfl, rfl⟩
+  | x :: xs, h => by
+    simp only [hasKeyList, Bool.or_eq_false_iff] at h
+    obtain ⟨a1, a2⟩ := C11_no_key_no_marker x h.1
+    obtain ⟨b1, b2⟩ := C11_no_key_no_marker_list xs h.2
+    simp only [hasOutTrueList, hasOutFalseList, a1, a2, b1, b2, Bool.or_false, and_self]
+theorem C11_no_key_no_marker_fields : ∀ (kvs : Fields), hasKeyFields "$output" kvs = false →
+    hasOutTrueFields kvs = false ∧ hasOutFalseFields kvs = false
+  | [], _ => ⟨rfl, rfl⟩
+  | (k, v) :: rest, h => by
+    simp only [hasKeyFields, Bool.or_eq_false_iff] at h
+    obtain ⟨a1, a2⟩ := C11_no_key_no_marker v h.1.2
+    obtain ⟨b1, b2⟩ := C11_no_key_no_marker_fields rest h.2
+    simp only [hasOutTrueFields, hasOutFalseFields, a1, a2, b1, b2, Bool.or_false, and_self]
+end
+
+example : hasKey "$output" (.map [("a", .list [.map [("b", .bool true)]])]) = false := by decide
+
+/-- Every document `emit` returns is `finalize v2` of a validated tree `v2` that contains no
+    `$output` key at all (hence no marker of either polarity) and no `null`.  (Nothing is claimed
+    about `finalize v2` itself: `finalize` turns a key "$$output" into "$output".) -/
+theorem C11_emit_no_markers (ds outs : List Val) (h : emit ds = .ok outs) :
+    ∀ o ∈ outs, ∃ v2, o = finalize v2 ∧ validate v2 = .ok () ∧ hasKey "$output" v2 = false ∧
+      hasOutTrue v2 = false ∧ hasOutFalse v2 = false ∧ noNull v2 = true := by
+  intro o ho
+  rw [emit_eq] at h
+  cases hs : emitSelect ds with
+  | error e => rw [hs] at h; cases h
+  | ok vs =>
+    rw [hs] at h
+    obtain ⟨v, _, v2, hf, hv, rfl⟩ := emitFinish_mem vs outs h o ho
+    have hk := C11_validate_no_bad_key "$output" (by decide) v2 hv
+    obtain ⟨a, b⟩ := C11_no_key_no_marker v2 hk
+    exact ⟨v2, rfl, hv, hk, a, b, C11_no_null v v2 hf⟩
+
+/-- provenance of every emitted document: selected (or root) subtree, then hidden parts removed,
+    validated, finalised -/
+theorem C11_emit_provenance (ds outs : List Val) (h : emit ds = .ok outs) :
+    ∀ o ∈ outs, ∃ d ∈ ds, ∃ obj sel v v2, findOutputs d = .ok (obj, sel) ∧
+      ((sel = [] ∧ v = obj) ∨ v ∈ sel) ∧ hasOutTrue v = false ∧
+      filterOutput v = .ok (some v2) ∧ hidden v = false ∧ validate v2 = .ok () ∧
+      o = finalize v2 := by
+  intro o ho
+  rw [emit_eq] at h
+  cases hs : emitSelect ds with
+  | error e => rw [hs] at h; cases h
+  | ok vs =>
+    rw [hs] at h
+    obtain ⟨v, hv, v2, hf, hval, rfl⟩ := emitFinish_mem vs outs h o ho
+    obtain ⟨d, hd, obj, sel, hfo, hsel⟩ := emitSelect_mem ds vs hs v hv
+    obtain ⟨m1, m2⟩ := C11_markers_stripped d obj sel hfo
+    have hclean : hasOutTrue v = false := by
+      rcases hsel with ⟨_, rfl⟩ | hm
+      · exact m1
+      · exact m2 v hm
+    have hh : hidden v = false := by
+      cases hh : hidden v with
+      | false => rfl
+      | true => exact absurd hf (C11_hidden_not_kept v v2 hh)
+    exact ⟨d, hd, obj, sel, v, v2, hfo, hsel, hclean, hf, hh, hval, rfl⟩
+
+example : emit [.map [("a", .map [("$output", .bool true), ("x", .int 1), ("y", .null)]),
+                      ("b", .list [.map [("$output", .bool true)], .str "$$z",
+                                   .map [("k", .map [("$output", .bool false), ("h", .int 2)])]])]] =
+    .ok [.map [("x", .int 1)], .list [.str "$z", .map []]] := by decide
+
 end Bkl
